@@ -15,7 +15,7 @@ from vlib import core
 
 LEVEL = "model_checking"
 
-QUICK = ["shone", "shmix", "ops", "semis", "cmt", "num1", "num2", "quoted"]
+QUICK = ["shone", "shmix", "linedir", "ops", "semis", "cmt", "num1", "num2", "quoted"]
 THOROUGH = ["shmix", "shpairs", "ops", "semis", "cmt", "num1", "num2", "quoted"]
 
 
